@@ -135,7 +135,7 @@ PROPS = {
         theorems=["Orbit.C09.other_databases_untouched", "Orbit.C09.broadcast_changes_only_the_source",
                   "Orbit.C09.published_under_own_address", "Orbit.C09.pinned_tree_cross_talk"],
         families=[("multidb", 100, 3000, 10)],
-        corr_fields={"values", "heads", "idx", "len", "status"},
+        corr_fields={"values", "heads", "idx", "len", "status", "loadq"},
         nontrivial=lambda lines: sum(1 for l in lines if l.startswith("opened ")) >= 1 and sum(1 for l in lines if l.startswith("ack ")) >= 2,
         rule="2-4 databases of mixed types and write lists opened on the same 2-4 instances (default shared event bus); PRNG writes, manual syncs and announcement deliveries in one database at a time; every database on every peer is observed (contents, index, status, per-address store-event counters) after every step and must be unchanged unless it was the one operated on; every announcement's topic, address and entries must belong to one database; non-trivial = >= 2 databases and >= 2 writes",
         trusted_base=["libp2p eventbus delivers every event to every subscriber of its type (modelled as broadcast)"],
@@ -166,7 +166,7 @@ PROPS = {
     "C12": dict(
         module="OrbitModel.Properties.C12",
         theorems=["Orbit.C12.no_message_panics", "Orbit.C12.listener_survives_any_stream", "Orbit.C12.only_complete_admitted_heads_loaded",
-                  "Orbit.C12.later_valid_messages_handled", "Orbit.C12.no_length_prefix_panics",
+                  "Orbit.C12.later_valid_messages_handled", "Orbit.C12.listener_loop_handles_every_message", "Orbit.C12.a_loop_that_left_on_error_would_drop_later_messages", "Orbit.C12.no_length_prefix_panics",
                   "Orbit.C12.frame_guard_tied_to_go_text", "Orbit.C12.pinned_tree_panics"],
         families=[("garbage", 120, 4000, 10), ("transport", 40, 1500, 6)],
         corr_fields={"values", "heads", "idx", "len", "loadq"},
